@@ -172,11 +172,21 @@ def check(prop, tier, seed, jobs, max_report=3):
                 lines.append(f"VIOLATION property={prop} replay={rep['path']}")
                 lines.append(f"  signature: {sig}")
                 lines.append(f"  what: {rep['msg']}")
-                lines.append(f"  minimised to {len(rep['run']['ops'])} ops (from {len(v['run']['ops'])}); seed={seed} run={v['idx']} hashseed={rep['hashseed']}")
+                lines.append(f"  minimised to {len(rep['run']['ops'])} ops (from {len(v['run']['ops'])}); seed={seed} run={v['idx']} hashseed={rep['hashseed']}"
+                             + (f"; needs {len(rep['runs']) - 1} earlier run(s) in the same world" if rep.get('runs') else ''))
                 done = True
                 break
         if not done:
             unconfirmed.append(sig)
+            try:
+                d = os.path.join(OUT, 'replays', prop, 'unconfirmed')
+                os.makedirs(d, exist_ok=True)
+                for b, v in cands[:3]:
+                    with open(os.path.join(d, f"{seed}-{v['idx']}-{H(sig) % 100000:05d}.json"), 'w') as f:
+                        json.dump({'signature': sig, 'batch': b, 'hashseed': hashseed_of(seed, prop, tier, b), 'tier': tier,
+                                   'batch_size': cfg['batch'], 'run': v['run'], 'first': v['first']}, f, indent=1, default=str)
+            except Exception:
+                pass
     for sig in sorted(unknown)[max_report:]:
         lines.append(f"  (further unlisted signature, not minimised: {sig}, {len(unknown[sig])} runs)")
     wall_s = time.time() - t0
@@ -212,12 +222,18 @@ def minimise_and_confirm(prop, tier, seed, b, v, sig):
     if r and r.get('ok'):
         run = r['run']
     conf = spawn({'mode': 'exec', 'prop': prop, 'run': run}, hs, 120)
+    runs = None
     if not conf or 'error' in conf or sig not in conf.get('sigs', []):
         # fall back to the unminimised run
         run = v['run']
         conf = spawn({'mode': 'exec', 'prop': prop, 'run': run}, hs, 120)
         if not conf or 'error' in conf or sig not in conf.get('sigs', []):
-            return None
+            # the violation may depend on what earlier runs left behind in the same world (process):
+            # replay the batch prefix, then delete earlier runs while the signature recurs
+            runs, conf = world_history(prop, tier, seed, b, v, sig, hs)
+            if runs is None:
+                return None
+            run = runs[-1]
     first = [x for x in conf['violations'] if f"{x['prop']}/{x['oracle']}/{x['disc']}" == sig][0]
     d = os.path.join(OUT, 'replays', prop)
     os.makedirs(d, exist_ok=True)
@@ -228,12 +244,47 @@ def minimise_and_confirm(prop, tier, seed, b, v, sig):
         'signature': sig,
         'violation': first,
         'run': run,
+        'runs': runs,  # not None: the violation needs these runs executed before `run` in the same world (process)
         'events': conf['events'],
         'how_to_replay': f'bin/check {prop} --replay {path}',
     }
     with open(path, 'w') as f:
         json.dump(body, f, indent=1, default=str)
-    return {'path': path, 'msg': first['msg'], 'run': run, 'hashseed': hs}
+    return {'path': path, 'msg': first['msg'], 'run': run, 'hashseed': hs, 'runs': runs}
+
+
+def world_history(prop, tier, seed, b, v, sig, hs):
+    cfg = TIERS[prop][tier]
+    start = b * cfg['batch']
+    first = spawn({'mode': 'world_prefix', 'prop': prop, 'tier': tier, 'seed': seed, 'sig': sig, 'start': start, 'idx': v['idx']}, hs, 600)
+    if not first or 'error' in first or not first.get('recurs'):
+        return None, None
+    runs = first['runs']
+    conf = first['result']
+    # ddmin over the earlier runs (each trial in a fresh interpreter)
+    earlier, last = runs[:-1], runs[-1]
+    n = 2
+    tries = 0
+    while earlier and tries < 40:
+        chunk = max(1, len(earlier) // n)
+        removed = False
+        i = 0
+        while i < len(earlier) and tries < 40:
+            cand = earlier[:i] + earlier[i + chunk:]
+            tries += 1
+            r = spawn({'mode': 'world_trial', 'prop': prop, 'sig': sig, 'runs': cand + [last]}, hs, 300)
+            if r and 'error' not in r and r.get('recurs'):
+                earlier = cand
+                conf = r['result']
+                removed = True
+                n = max(n - 1, 2)
+            else:
+                i += chunk
+        if not removed:
+            if chunk == 1:
+                break
+            n = min(n * 2, len(earlier))
+    return earlier + [last], conf
 
 
 def replay(prop, path):
@@ -243,7 +294,10 @@ def replay(prop, path):
     hs = body['header']['hashseed']
     prop = body['header']['property']
     sig = body['signature']
-    conf = spawn({'mode': 'exec', 'prop': prop, 'run': body['run']}, hs, 300)
+    job = {'mode': 'exec', 'prop': prop, 'run': body['run']}
+    if body.get('runs'):
+        job['runs'] = body['runs']
+    conf = spawn(job, hs, 600)
     if 'error' in conf:
         print('HARNESS-ERROR:', json.dumps(conf)[:2000])
         return 2
@@ -307,8 +361,11 @@ def main(argv):
         print('usage: check <Cxx> [quick|thorough] | check <Cxx> --replay <file>')
         return 2
     prop = argv[1]
-    if len(argv) >= 4 and argv[2] == '--replay':
-        return replay(prop, argv[3])
+    if '--replay' in argv:
+        if len(argv) >= 4 and argv[2] == '--replay' and argv[3]:
+            return replay(prop, argv[3])
+        print('usage: check <Cxx> --replay <file>')
+        return 2
     if prop not in TIERS:
         print(f'{prop}: not a claimed property (see MANIFEST.json not_applicable)')
         return 2
